@@ -47,6 +47,14 @@ def run(ctx):
             gen_cache.generate(core.GEN_DIR)
         except Exception as e:  # Untranslatable or anything else: the tie is broken, the searches below still run
             ctx.broken.append(f"translation: DatastoreCacheManager._expire_cache: {type(e).__name__}: {e}")
+        # T-tie: `_CacheToggle.enable` (entry, finally block, what follows the try) translated into Gen/TogglePy.lean;
+        # C17.Toggle.all_left_cache_off / run_inv are proved about the translation
+        try:
+            import gen_toggle
+
+            gen_toggle.generate(core.GEN_DIR)
+        except Exception as e:
+            ctx.broken.append(f"translation: _CacheToggle.enable: {type(e).__name__}: {e}")
         built = core.lean_build(ctx, LEAN_TARGETS)
         if built:
             core.lean_audit(ctx, ["ButlerModel.Props.C17"])
@@ -61,6 +69,7 @@ def run(ctx):
         trust_unstore_cached(ctx, tmp)
         after_contexts(ctx, tmp)
         cloned_clients(ctx, tmp)
+    toggle_direct(ctx)
 
 
 # ------------------------------------------------------------------ (a) file cache
@@ -630,6 +639,76 @@ def cloned_clients(ctx, tmp):
                  f"{got.get(diff[0])}; a client opened at the same moment answers {want[diff[0]]} ({len(diff)} probes differ)",
                  f"clone:{seq}", {"kind": "clone", "warmup": seq, "differs": diff})
         del a, c, second
+
+
+# ------------------------------------------------------------------ (i) the toggle itself, driven directly
+def toggle_direct(ctx):
+    """Random programs of nested `CachingContext` contexts on the real class: exceptions raised at random places and caught at
+    random levels; at every point the caches are there exactly while a context is open (what `C17.Toggle.run_inv` states about
+    the translation), and they are gone once all are left."""
+    from lsst.daf.butler.registry._caching_context import CachingContext
+
+    rng = ctx.rng
+
+    class Boom(Exception):
+        pass
+
+    def viol(what, key, replay):
+        ctx.violations.append(core.Violation(what=what, key=key, replay=replay))
+
+    n_prog = 300 if ctx.quick() else 5000
+    for n in range(n_prog):
+        cc = CachingContext()
+        trace, bad = [], []
+
+        def observe(open_now):
+            for nm, val in (("records", cc.collection_records), ("summaries", cc.collection_summaries)):
+                if (val is not None) != (open_now > 0) and not bad:
+                    bad.append(f"after {trace}: {open_now} context(s) open, the collection {nm} cache is {'on' if val is not None else 'off'}")
+
+        def prog(level, budget):
+            # a block: a few statements, each either a nested context, a raise, or a guarded nested block
+            for _ in range(rng.randint(0, 3)):
+                if budget[0] <= 0:
+                    return
+                budget[0] -= 1
+                r = rng.random()
+                if r < 0.45 and level < 4:
+                    cms = [cc.enable_collection_record_cache, cc.enable_collection_summary_cache]
+                    trace.append("enter")
+                    try:
+                        with cms[0](), cms[1]():
+                            observe(level + 1)
+                            prog(level + 1, budget)
+                        trace.append("leave")
+                    except Boom:
+                        trace.append("leave(exc)")
+                        observe(level)
+                        raise
+                    observe(level)
+                elif r < 0.65:
+                    trace.append("raise")
+                    raise Boom()
+                elif r < 0.9:
+                    trace.append("try")
+                    try:
+                        prog(level, budget)
+                    except Boom:
+                        trace.append("caught")
+                        observe(level)
+
+        try:
+            prog(0, [rng.randint(3, 14)])
+        except Boom:
+            trace.append("caught-outside")
+        observe(0)
+        ctx.evaluations += 1
+        ctx.count("toggle-program")
+        if "leave(exc)" in trace:
+            ctx.nontrivial.add(("toggle", n))
+        if bad:
+            viol(bad[0], f"toggle:{trace}", {"kind": "toggle", "trace": trace})
+            break
 
 
 # ------------------------------------------------------------------ (e) the dimension-record cache and the client's own record writes
